@@ -590,7 +590,11 @@ func (run *liveRun) save(s *LStep) {
 		return
 	}
 	run.h.Disk.Write(path, neu)
-	run.h.H.Add("editor", "save", fmt.Sprintf("%s v%d %s len=%d", path, s.Ver, s.Mode, len(neu)))
+	shown := ""
+	if s.Mode != "atomic" {
+		shown = fmt.Sprintf(" content=%q", neu) // damaged saves are written out: the replay must explain itself
+	}
+	run.h.H.Add("editor", "save", fmt.Sprintf("%s v%d %s len=%d%s", path, s.Ver, s.Mode, len(neu), shown))
 }
 
 // analyse works out, from the bytes the disk actually returned, which entity
@@ -680,12 +684,19 @@ func (run *liveRun) analyse(al *activeLoad) *served {
 		}
 		if fileDamaged {
 			// goatlang has no statement separators: a damaged line can merge with its
-			// neighbours and change what the other lines of the same file mean (files
-			// are parsed one by one, so the damage stays inside the file)
+			// neighbours and change what the other lines of the same file mean. Files are
+			// parsed one by one, but compiled as one package: a stray `package x` clause
+			// inside damaged text re-prefixes every later declaration of the package
+			// (seen: `...;package l- 3 }` made lib1's init run as l.init). So damage makes
+			// the whole package unpredictable; in package main that includes the probe itself.
 			for _, e := range run.w.Ents {
-				if e.Pkg == pkg && rec.Path == run.w.EntFilePath(e.Pkg, e.File) {
+				if e.Pkg == pkg {
 					sv.damaged[e.ID] = true
 				}
+			}
+			sv.shaky[pkg] = true
+			if pkg == 0 {
+				sv.poison = true
 			}
 		}
 	}
@@ -716,6 +727,7 @@ func (run *liveRun) load(s *LStep, depth int) {
 	}
 	editsBefore := d.Fired["edit"]
 	err := run.h.Load("main")
+	opsAtEnd := d.Ops
 	if d.Fired["edit"] > editsBefore {
 		run.h.C.Add("fault:save-during-load", d.Fired["edit"]-editsBefore)
 	}
@@ -726,6 +738,13 @@ func (run *liveRun) load(s *LStep, depth int) {
 		outer.skip = append(outer.skip, [2]int{al.readFrom, len(d.Reads)})
 	}
 	sv := run.analyse(al)
+	for _, du := range s.During {
+		if base+du.AtOp <= opsAtEnd {
+			// the editor changed this package's directory while the loader was walking it: a file
+			// that vanishes between listing and open makes goatlang skip the whole package silently
+			sv.shaky[du.Save.Pkg] = true
+		}
+	}
 	changed := 0
 	clean := err == nil && !al.nested && !sv.poison
 	for id, vs := range sv.vers {
